@@ -38,6 +38,7 @@ const (
 	prPreParsed
 	prBadAccepted
 	prDupMsg
+	prSoak
 	nRProbes
 )
 
@@ -46,7 +47,7 @@ var rProbeNames = []string{"overflow_eviction", "timeout_eviction", "complete_ev
 	"eoe_completed_buffered_event", "close_flushed_events", "maintain_flushed_events", "push_after_close",
 	"overflow_eviction_of_incomplete_head", "window_edge_offset_used", "call_at_exact_expiry_instant",
 	"late_arrival_after_eviction", "several_evictions_in_one_call", "two_sequence_numbers_more_than_2^24_apart",
-	"history_dealt_onto_3_to_5_far_apart_sequence_clusters", "message_parsed_before_the_first_call_pushed_later", "record_meant_as_unparsable_was_accepted_run_not_judged", "second_message_object_equal_to_the_previous_one"}
+	"history_dealt_onto_3_to_5_far_apart_sequence_clusters", "message_parsed_before_the_first_call_pushed_later", "record_meant_as_unparsable_was_accepted_run_not_judged", "second_message_object_equal_to_the_previous_one", "long_history_of_300_to_70000_events"}
 
 // callback records of one call
 type rGroup struct {
@@ -142,6 +143,15 @@ var counterfactual bool
 // ExecRPlan interprets a plan against a real Reassembler inside the current
 // bubble and evaluates the C01 C02 C03 C10 C19 oracles over the history.
 func ExecRPlan(p *RPlan, trace bool) *core.Result {
+	if p.Soak != nil {
+		// a long history, written down as its recipe: expand and interpret as usual
+		q := *p
+		q.Soak = nil
+		q.Ops = expandSoak(p)
+		r := ExecRPlan(&q, trace && len(q.Ops) < 3000)
+		r.Probes[prSoak]++
+		return r
+	}
 	res := &core.Result{Probes: make([]int, nRProbes), Faults: make([]int, nRFaults)}
 	if len(p.Fired) == nRFaults {
 		copy(res.Faults, p.Fired)
@@ -184,7 +194,7 @@ func ExecRPlan(p *RPlan, trace bool) *core.Result {
 	closeSeen := false
 	earlyAtCreation := false
 	maxDeliveredOff := int64(-1)
-	var evictedOffs []uint32
+	evictedOffs := map[uint32]bool{}
 	viol := func(prop, kind, class, f string, a ...any) {
 		for _, v := range res.Violations {
 			if v.Property == prop && v.Kind == kind && v.Class == class {
@@ -515,8 +525,13 @@ func ExecRPlan(p *RPlan, trace bool) *core.Result {
 				res.Probes[prCloseFlushed]++
 			}
 			// C02: ordering with the late-arrival exception
-			for _, f := range delivered {
-				if f.off >= off && !(in.firstPush > f.call) {
+			// (is there a delivery of an equal or higher offset that was made at or after
+			// this event's first push? Deliveries come in call order, so among those with
+			// an offset >= off the latest one decides. `delivered` keeps only deliveries that
+			// are not dominated by a later one with an equal or higher offset: offsets fall
+			// and calls rise from bottom to top, and the answer is found by bisection.)
+			if n := sort.Search(len(delivered), func(k int) bool { return delivered[k].off < off }); n > 0 {
+				if f := delivered[n-1]; !(in.firstPush > f.call) {
 					viol("C02", "order-violation", "order", "sequence offset %d delivered in call #%d after offset %d (delivered in call #%d) although its first record was pushed in call #%d",
 						off, i, f.off, f.call, in.firstPush)
 				}
@@ -524,11 +539,8 @@ func ExecRPlan(p *RPlan, trace bool) *core.Result {
 			if int64(off) < maxDeliveredOff {
 				res.Probes[prLateDelivered]++
 			}
-			for _, eo := range evictedOffs {
-				if eo == off {
-					res.Probes[prSeqReused]++
-					break
-				}
+			if evictedOffs[off] {
+				res.Probes[prSeqReused]++
 			}
 			if seq == 0 {
 				res.Probes[prSeq0Delivered]++
@@ -541,8 +553,11 @@ func ExecRPlan(p *RPlan, trace bool) *core.Result {
 				expectedLost += int(off - lastOff - 1)
 				lastOff = off
 			}
+			for len(delivered) > 0 && delivered[len(delivered)-1].off <= off {
+				delivered = delivered[:len(delivered)-1]
+			}
 			delivered = append(delivered, rDelivered{off: off, firstPush: in.firstPush, call: i})
-			evictedOffs = append(evictedOffs, off)
+			evictedOffs[off] = true
 			if int64(off) > maxDeliveredOff {
 				maxDeliveredOff = int64(off)
 			}
@@ -636,7 +651,9 @@ func ExecRPlan(p *RPlan, trace bool) *core.Result {
 		if closed {
 			cl = 1
 		}
-		res.Abstract = append(res.Abstract, uint64(len(buffered))<<16|uint64(nc)<<8|uint64(he)<<1|uint64(cl)|uint64(op.K)<<32)
+		if len(res.Abstract) < 4000 {
+			res.Abstract = append(res.Abstract, uint64(len(buffered))<<16|uint64(nc)<<8|uint64(he)<<1|uint64(cl)|uint64(op.K)<<32)
+		}
 	}
 	// end of history
 	if closeSeen {
